@@ -29,13 +29,19 @@ def build(ctx):
     vs = ctx.vsched_obj()
     exes = ctx.build_many([dict(name="h08", sources=["h08.cpp"], opt="-O1", libs=["-ldl"]),
                            dict(name="h08s", sources=["h08s.cpp"], opt="-O1", objects=[vs])])
-    return {"h08": exes[0], "h08s": exes[1]}
+    # the same scheduler-harness bodies free-running on real threads under ThreadSanitizer (guards "no unsynchronised sharing"
+    # in the Writer pipeline: producer, pool workers running the encoders, write thread)
+    return {"h08": exes[0], "h08s": exes[1], "h08stsan": ctx.build_tsan_free("h08stsan", ["h08s.cpp"])}
 
 
 def run(ctx):
     exes = build(ctx)
     if getattr(ctx, "build_only", False):
         return
+    import os
+    ctx.run_harness(exes["h08stsan"], ["--iterations", "20" if ctx.tier == "quick" else "200", "--deadline", "30" if ctx.tier == "quick" else "200"],
+                    env={"TSAN_OPTIONS": "halt_on_error=0:exitcode=66:suppressions=" + os.path.join(os.path.dirname(os.path.dirname(ctx.checkdir)), "engine", "vsched", "tsan.supp")},
+                    timeout=100 if ctx.tier == "quick" else 400)
     ctx.run_harness(exes["h08"], [], shards=16)
     # schedule exploration with a failing mock compressor / encoder; its schedule counts are kept apart from the
     # fault-plan counts (evaluations / distinct_nontrivial speak about fault plans)
